@@ -116,17 +116,26 @@ func driveC19(p *Pool, r *evid.Run) {
 		return Scn{Kind: "xfer", Src: "c19hl", Dst: "empty", Cap: cp, Policy: pol, SelectAlts: true, MetaOn: true, Meta: sel}
 	}
 	probe := exploreAll(p, r, "C19", []Scn{mk("rr", 64, sels[2])}, 0, 0)
-	pols := []string{"run", "rr", "recv", "send"}
+	basic := []string{"run", "rr", "recv", "send"}
+	pols := append([]string{}, basic...)
 	if len(probe) > 0 && probe[0] != nil {
 		for _, role := range probe[0].Roles {
 			pols = append(pols, "slow:"+role)
 		}
 	}
-	var scns []Scn
+	// the deepest bound around the four basic policies; the slow-site policies are explored at bound 1 in both tiers
+	var scns, slowScns []Scn
+	add := func(sc Scn) {
+		if strings.HasPrefix(sc.Policy, "slow:") {
+			slowScns = append(slowScns, sc)
+		} else {
+			scns = append(scns, sc)
+		}
+	}
 	for _, sel := range sels {
 		for _, pol := range pols {
 			for _, cp := range []int{1, 64} {
-				scns = append(scns, mk(pol, cp, sel))
+				add(mk(pol, cp, sel))
 			}
 		}
 	}
@@ -135,11 +144,12 @@ func driveC19(p *Pool, r *evid.Run) {
 			for _, cp := range []int{1, 64} {
 				sc := mk(pol, cp, sel)
 				sc.Src = "c19nest"
-				scns = append(scns, sc)
+				add(sc)
 			}
 		}
 	}
 	exploreAll(p, r, "C19", scns, bound, 0)
-	r.Add("schedule_scenarios", int64(len(scns)))
+	exploreAll(p, r, "C19", slowScns, 1, 0)
+	r.Add("schedule_scenarios", int64(len(scns)+len(slowScns)))
 	r.Set("schedule_completed_bound", bound)
 }
